@@ -165,6 +165,9 @@ def evaluate_single(u, fn, ltag, lval, rtag, rval, tol):
         if name == "strcmp":
             a, b = args
             return (a.payload > b.payload) - (a.payload < b.payload)
+        fns_ = [f_ for f_ in u.functions.get(name, []) if u.body(f_) is not None and f_.get("storageClass") == "static"]
+        if len(fns_) == 1 and fns_[0] is not fn:
+            return ev.call_function(u, fns_[0], args)       # a file-local helper (option defaulting, array kind, ...)
         raise FD.Unknown("call to " + str(name), n)
     ev = FD.Eval(env={opt_id: 1}, call=call, node_hook=hook)
     try:
